@@ -24,7 +24,7 @@ pub fn def() -> PropDef {
             "Term keys for typed and JSON fields are built with tantivy's public Term builders (only the key encoding is reused; order and postings are checked against the model)",
             "one segment per case (single commit, one indexing thread): doc ids are insertion order",
         ],
-        subs: vec![Box::new(Text), Box::new(Typed)],
+        subs: vec![Box::new(Text), Box::new(Typed), Box::new(TermTable)],
     }
 }
 
@@ -747,6 +747,95 @@ impl Sub for Typed {
             cx.nontrivial(fp(c));
         }
         cx.sample(|| json!({"sub":"typed","docs":docs.len(),"first_doc":c.docs.first()}));
+        Ok(())
+    }
+}
+
+// ------------------------------------------------------------------------------------------------
+/// The in-memory term table of the indexer (`tantivy_stacker::ArenaHashMap`): every distinct key is one entry.
+/// Keys of one case have the same length and differ only inside a 4-byte window at a generated position, so that
+/// every byte position of a key is at some point the only thing that tells two keys apart; with ~10^5 keys per case a
+/// few pairs share their 32-bit hash, which is when the table has to compare the keys themselves.
+#[derive(Clone, Debug, Serialize, Deserialize)]
+pub struct TableCase {
+    pub len: u8,
+    pub window: u8,
+    pub nkeys: u32,
+    pub salt: u32,
+}
+pub struct TermTable;
+impl Sub for TermTable {
+    type Case = TableCase;
+    fn name(&self) -> &'static str {
+        "term_table"
+    }
+    fn cases(&self, tier: Tier) -> u32 {
+        tier.pick(320, 6000)
+    }
+    fn max_shrink_iters(&self) -> u32 {
+        60
+    }
+    fn strategy(&self, _tier: Tier) -> BoxedStrategy<TableCase> {
+        (prop_oneof![2 => 4u8..17, 3 => 17u8..49, 3 => 49u8..130], any::<u8>(), prop_oneof![1 => 1u32..2000, 4 => 90_000u32..140_000], any::<u32>())
+            .prop_map(|(len, window, nkeys, salt)| TableCase { len, window, nkeys, salt })
+            .boxed()
+    }
+    fn mandatory_labels(&self, _t: Tier) -> Vec<&'static str> {
+        vec!["keys>=90000", "len>=33", "len<=16", "hash_collisions_expected"]
+    }
+    fn run(&self, c: &TableCase, cx: &Ctx) -> CaseResult {
+        use tantivy_stacker::ArenaHashMap;
+        let len = c.len.max(4) as usize;
+        let w0 = idx((c.window as u16) << 8, len - 3);
+        let mut x = c.salt as u64 | 1;
+        let base: Vec<u8> = (0..len)
+            .map(|_| {
+                x ^= x << 13;
+                x ^= x >> 7;
+                x ^= x << 17;
+                (x >> 24) as u8
+            })
+            .collect();
+        let key_of = |i: u32| {
+            let mut k = base.clone();
+            k[w0..w0 + 4].copy_from_slice(&i.wrapping_mul(0x9E37_79B1).to_le_bytes());
+            k
+        };
+        let n = c.nkeys;
+        let mut map = ArenaHashMap::with_capacity(1 << 10);
+        let mut already = 0u32;
+        for i in 0..n {
+            let k = key_of(i);
+            map.mutate_or_create(&k, |prev: Option<u32>| {
+                if prev.is_some() {
+                    already += 1;
+                }
+                i
+            });
+        }
+        ensure!(already == 0, "term_table_merges_distinct_keys", "{already} of {n} distinct keys (length {len}, differing in bytes {w0}..{}) were taken for a key that is already in the table", w0 + 4);
+        ensure!(map.len() == n as usize, "term_table_len", "{} entries for {n} distinct keys", map.len());
+        for i in (0..n).step_by(7) {
+            let got: Option<u32> = map.get(&key_of(i));
+            ensure!(got == Some(i), "term_table_lookup", "key #{i}: {got:?}");
+        }
+        let mut seen = 0usize;
+        for (k, addr) in map.iter() {
+            let v: u32 = map.read(addr);
+            ensure!(k == key_of(v).as_slice(), "term_table_iter", "entry with value {v} carries another key");
+            seen += 1;
+        }
+        ensure!(seen == n as usize, "term_table_iter", "iter() yields {seen} entries for {n} keys");
+        cx.evals(n as u64);
+        cx.label_if(n >= 90_000, "keys>=90000");
+        cx.label_if(n >= 90_000, "hash_collisions_expected");
+        cx.label_if(len >= 33, "len>=33");
+        cx.label_if(len <= 16, "len<=16");
+        cx.label_if(len % 16 != 0 && len >= 33, "len_not_multiple_of_16");
+        if n >= 90_000 {
+            cx.nontrivial(fp(c));
+        }
+        cx.sample(|| json!({"sub": "term_table", "len": len, "window": [w0, w0 + 4], "keys": n}));
         Ok(())
     }
 }
